@@ -1281,8 +1281,11 @@ TRUSTED = [
     "modelled, not verified: numpy reductions mean/std/median/sum/sqrt and binary64 rounding of the statistics (compared "
     "with tolerance 1e-12*(scale), not bounded by proof), numpy's stable argsort, astype(float64), view/slice assignment "
     "semantics in _merge_last, float -> int64 conversion",
-    "nperbin: the bin number np.int64(i/float(nperbin)) is modelled as the integer quotient; a monitor evaluates C05's "
-    "bit-exact binary64 bin number against it for every (n, nperbin) explored",
+    "nperbin: the bin number np.int64(i/float(nperbin)) is modelled as the integer quotient; that the binary64 computation "
+    "(C05's bit-exact bin number on float positions) equals it is a theorem for all sizes and nperbin below 2^53 "
+    "(C14_int_quotient_exact, C14_hist_by_num_float_model; Flocq + FloatAxioms)",
+    "C14_binned_holds_finite / C14_nperbin_holds_finite / the quotient theorems depend on the standard library's FloatAxioms "
+    "and real-number axioms (through Flocq and C05's float facts); all other theorems do not",
     "translator harness/props/c14_translate.py (python ast, fail-closed): re-reads on every run what each key is assigned in "
     "the single-member and several-member branches of the statistics loop and the constants -9999.0 / 0 / 0.5, compared in "
     "Coq with the tables of Model.v, which Proofs.tables_are_the_model ties to the model",
@@ -1300,7 +1303,7 @@ def run(ctx, replay=None):
                 "members taken from the data).  non-trivial: >= 2 occupied bins and (an empty bin, a single-member bin, a tie, "
                 "an edge value, an excluded datum or a short last bin).  distinct by canonical JSON.")
     ctx.trusted = TRUSTED
-    core.proof_step(ctx, "C14", core.ALLOW_FLOAT)
+    core.proof_step(ctx, "C14", core.ALLOW_FLOAT + core.ALLOW_REALS)
     # exact rational statistics cost 0.05-1 s per case: size the shards so that all cores are used (the
     # default of 400 terms per file would leave most of them idle)
     orig = core.coq_eval
@@ -1331,7 +1334,9 @@ def run(ctx, replay=None):
     differential(ctx, PRE, ENTRIES, replay)
     huge_checks(ctx, replay)
     ent = ENTRIES[1]
-    if ent.monitors:
+    # np.int64(i/float(k)) = i // k is a theorem now (C14_int_quotient_exact, C14_nperbin_monitor_holds); the per-case
+    # evaluation is kept in the thorough tier only, as a redundant cross-check of the theorem's reading of the code
+    if ent.monitors and not ctx.quick():
         pairs = sorted(ent.monitors)
         try:
             vals = core.coq_eval(ctx.work + "/monitor", PRE, ["if nperbin_monitor %s %s then 0 else 1" % (cz(n), cz(k))
